@@ -1,6 +1,8 @@
 import MgpuModel.Util
 import MgpuModel.C12_Wake
 import MgpuModel.C12_K
+import MgpuModel.C12_Full
+import MgpuModel.C12_Listeners
 /-!
 # C12 — command queues are FIFO and waiting on them terminates
 
@@ -385,6 +387,12 @@ def handle (line : String) : String :=
       match (kv? t "rounds").bind (natList? ·) with
       | some rounds => joinWith " " (K.runTrace1 (K.init [K.script1 rounds] 1) (rest.flatMap words) [])
       | none => "bad"
+    | "c12" :: "ksched2" :: _ =>
+      match kvNat? t "nq", (kv? t "scripts").bind K.parseScriptsK with
+      | some nq, some scripts => joinWith " " (K.runTraceK (K.initK scripts nq) (rest.flatMap words) [])
+      | _, _ => "bad"
+    | "c12" :: "full" :: _ => W.Full.handleLine t rest
+    | "c12" :: "listeners" :: _ => L.handleLine rest
     | "c12" :: "wake" :: _ =>
       match kvNat? t "nq", (rest.flatMap words).mapM W.Drv.parseOp with
       | some nq, some ops => W.Drv.handleWake nq ((kv? t "fresh") == some "true") ops
